@@ -3,18 +3,10 @@
    non-descriptor fields (all unchanged except by register / unregister). *)
 From Coq Require Import List ZArith Bool Lia.
 From Ivv Require Import Core.Kernel Core.CoreTypes Core.CoreFd Core.CoreModel Core.CorePhase2AcctTr.
+From Ivv Require Export Core.CorePhase2K1Base.
 From Ivv Require Timer.HeapModel.
 Import ListNotations.
 Local Open Scope Z_scope.
-
-(* results: a property of the continuing state; halted runs are handled by the trace lemmas *)
-Definition ARes (P : core -> Prop) (r : res) : Prop := match r with R s' => P s' | Halt _ => True end.
-
-Lemma ARes_bind : forall (P Q : core -> Prop) r f, ARes P r -> (forall s1, P s1 -> ARes Q (f s1)) -> ARes Q (bind r f).
-Proof. intros P Q r f H K. destruct r as [s1|s1]; cbn [bind ARes] in *; [apply K; exact H|exact I]. Qed.
-
-Lemma ARes_imp : forall (P Q : core -> Prop) r, ARes P r -> (forall s1, P s1 -> Q s1) -> ARes Q r.
-Proof. intros P Q r H K. destruct r; cbn [ARes] in *; auto. Qed.
 
 (* accounting-same: registered flags and all counted fields agree *)
 Record AS (s s' : core) : Prop := {
